@@ -669,7 +669,7 @@ func (h *histGen) newLabel() string {
 	n := fmt.Sprintf("%s%d", names[h.g.Intn(len(names))], h.nlabel)
 	// names are the caller's: prefixes of each other, differing only in case, numeric, very long,
 	// mnemonic-like, with dots and at-signs
-	switch h.g.Intn(12) {
+	switch h.g.Intn(13) {
 	case 0:
 		n = fmt.Sprintf("%d", h.nlabel)
 	case 1:
@@ -680,6 +680,16 @@ func (h *histGen) newLabel() string {
 		n = fmt.Sprintf("lda.%d@%s", h.nlabel, strings.Repeat("long_", h.g.Intn(60)))
 	case 4:
 		n = fmt.Sprintf(".%d", h.nlabel)
+	case 7:
+		// pairs of different names that popular string hashes cannot tell apart (32-bit FNV-1a and FNV-1,
+		// Java's s[i]*31^k, CRC-32): a table keyed by a hash of the name must still keep them apart
+		pairs := [][2]string{{"costarring", "liquid"}, {"declinate", "macallums"}, {"altarage", "zinke"}, {"altarages", "zinkes"},
+			{"Aa", "BB"}, {"AaAa", "BBBB"}, {"AaBB", "BBAa"}, {"plumless", "buckeroo"}, {"codding", "gnu"}, {"exhibiters", "schlager"}}
+		pr := pairs[h.g.Intn(len(pairs))]
+		n = pr[0]
+		if h.used != nil && h.used[n] {
+			n = pr[1]
+		}
 	case 6:
 		n = fmt.Sprintf("boucle_%cé%d", wideRunes[h.g.Intn(len(wideRunes))], h.nlabel) // UTF-8 names
 	case 5:
